@@ -1,10 +1,10 @@
 """which translated function groups (tools/gen_code.py → Generated/Code_<group>.lean, proofs in Proofs/Code_<group>.lean,
 statements in Props/Source_<group>.lean) each property's model depends on, and the theorems tying each group to the model"""
-DEPS = {'C01': ['classes', 'simplify', 'shapes', 'lookup'],
+DEPS = {'C01': ['classes', 'simplify', 'shapes', 'lookup', 'values'],
         'C02': ['data'],
-        'C03': ['classes', 'simplify', 'shapes', 'wrapmerge'],
-        'C04': ['classes', 'simplify', 'shapes', 'wrapsplit'],
-        'C05': ['classes', 'simplify', 'shapes', 'wrapsplit', 'wrapmerge'],
+        'C03': ['classes', 'simplify', 'shapes', 'values', 'wrapmerge'],
+        'C04': ['classes', 'simplify', 'shapes', 'values', 'wrapsplit'],
+        'C05': ['classes', 'simplify', 'shapes', 'values', 'wrapsplit', 'wrapmerge'],
         'C06': ['classes', 'simplify'],
         'C07': ['classes', 'simplify', 'shapes', 'valid'],
         'C08': ['classes', 'lookup'],
@@ -23,6 +23,9 @@ GROUP_THEOREMS = {
     'wrapmerge': ['wrap_merge_shape_is_model', 'fill_specs_is_model'],
     'stack': ['get_shape_counts_is_model', 'accept_is_counts_and_order', 'chk_order_check_is_cellwise',
               'cells_are_model_blocks', 'get_shape_accepts_iff_model'],
+    'values': ['get_changed_class_is_model', 'copy_slice_dest_is_model', 'copy_slice_vals_is_model', 'copy_slice_vals_zero_div',
+               'global_slice_subset_is_model', 'insert_slice_interleave_is_model', 'insert_sample_interleave_is_model',
+               'slice_step_is_model'],
     'data': ['file_idx_is_model', 'file_idx_volume_is_model', 'get_data_trim_is_model'],
 }
 
